@@ -90,6 +90,7 @@ var (
 )
 
 const tapMax = 8 << 20
+const callLogCap = 1 << 15
 
 type stallState struct {
 	Stall
@@ -158,6 +159,7 @@ type SimConn struct {
 	nlog   int
 	local  simAddr
 	remote simAddr
+	logOvf bool
 	// reach probes
 	wroteAfterClose bool
 }
@@ -300,8 +302,8 @@ func (n *Net) newPair(addr string) (*SimConn, *SimConn) {
 	b := &SimConn{ID: s.nconns + 1, sim: s, in: ab, out: ba, faults: cc.FaultsB,
 		local: simAddr(addr), remote: simAddr("client:" + itoa(idx))}
 	a.peer, b.peer = b, a
-	a.log = arenaSlice[CallEntry](4096)
-	b.log = arenaSlice[CallEntry](4096)
+	a.log = arenaSlice[CallEntry](callLogCap)
+	b.log = arenaSlice[CallEntry](callLogCap)
 	s.conns[s.nconns] = a
 	s.conns[s.nconns+1] = b
 	s.nconns += 2
@@ -327,7 +329,7 @@ func newPipe(capacity int, sink bool) *pipe {
 	p := &pipe{sink: sink, headEnd: -1}
 	p.ring = theArena.alloc(capacity)
 	p.tap = theArena.alloc(tapMax)
-	p.chunks = arenaSlice[tapChunk](8192)
+	p.chunks = arenaSlice[tapChunk](1 << 15)
 	return p
 }
 
@@ -379,6 +381,9 @@ func (c *SimConn) nextIdx(side byte) (all int, fault int, fn int) {
 func (c *SimConn) logCall(op uint8, arg int64, n int, err error, fault int, all int) {
 	s := c.sim
 	s.lock()
+	if len(c.log) == cap(c.log) {
+		c.logOvf = true
+	}
 	if len(c.log) < cap(c.log) {
 		c.log = append(c.log, CallEntry{Step: s.step, T: int64(s.Now()), Op: op, Arg: arg, N: int32(n), Err: errCode(err), Fault: uint8(fault), All: int32(all)})
 	}
@@ -739,6 +744,7 @@ func (q *pipe) untilNextStall(side string) int64 {
 func (s *Sim) enabled(recs []*parkRec) ([]event, time.Duration) {
 	evs := s.events[:0]
 	now := s.Now()
+	s.timeoutDue = false
 	var next time.Duration
 	for _, r := range recs {
 		ok := false
@@ -759,8 +765,9 @@ func (s *Sim) enabled(recs []*parkRec) ([]event, time.Duration) {
 		}
 		if ok {
 			evs = append(evs, event{rec: r})
-		} else if wait > 0 && (next == 0 || wait < next) {
-			next = wait
+		}
+		if wait > 0 && (next == 0 || wait < next) {
+			next = wait // also for enabled ops: the clock must not be ticked past an armed deadline
 		}
 	}
 	s.events = evs
@@ -771,16 +778,17 @@ func (s *Sim) enabled(recs []*parkRec) ([]event, time.Duration) {
 func (s *Sim) readEnabled(r *parkRec, now time.Duration) (bool, time.Duration) {
 	c := r.conn
 	q := c.in
-	if c.closed || r.fault != 0 || r.n == 0 {
-		return true, 0
-	}
 	var wait time.Duration
 	if !c.rdl.IsZero() {
 		d := c.rdl.Sub(s.start)
 		if now >= d {
+			s.timeoutDue = true // whatever else enables the op: no clock tick before it is released
 			return true, 0
 		}
 		wait = d - now
+	}
+	if c.closed || r.fault != 0 || r.n == 0 {
+		return true, wait
 	}
 	if st, left := q.stalled(s, "r", now); st {
 		if left > 0 && (wait == 0 || left < wait) {
@@ -789,10 +797,10 @@ func (s *Sim) readEnabled(r *parkRec, now time.Duration) (bool, time.Duration) {
 		return false, wait
 	}
 	if at, ok := q.cutAt(); ok && q.handed >= at {
-		return true, 0
+		return true, wait
 	}
 	if q.n > 0 || q.wclosed || q.reset {
-		return true, 0
+		return true, wait
 	}
 	return false, wait
 }
@@ -801,16 +809,17 @@ func (s *Sim) readEnabled(r *parkRec, now time.Duration) (bool, time.Duration) {
 func (s *Sim) writeEnabled(r *parkRec, now time.Duration) (bool, time.Duration) {
 	c := r.conn
 	q := c.out
-	if c.closed || r.fault != 0 || r.n-r.done == 0 {
-		return true, 0
-	}
 	var wait time.Duration
 	if !c.wdl.IsZero() {
 		d := c.wdl.Sub(s.start)
 		if now >= d {
+			s.timeoutDue = true
 			return true, 0
 		}
 		wait = d - now
+	}
+	if c.closed || r.fault != 0 || r.n-r.done == 0 {
+		return true, wait
 	}
 	if st, left := q.stalled(s, "w", now); st {
 		if left > 0 && (wait == 0 || left < wait) {
@@ -819,7 +828,7 @@ func (s *Sim) writeEnabled(r *parkRec, now time.Duration) (bool, time.Duration) 
 		return false, wait
 	}
 	if q.isSink() || q.n < len(q.ring) {
-		return true, 0
+		return true, wait
 	}
 	return false, wait
 }
@@ -1073,6 +1082,9 @@ func (c *SimConn) Calls() []CallEntry {
 	copy(out, c.log)
 	return out
 }
+
+//go:norace
+func (c *SimConn) LogOverflow() bool { return c.logOvf || len(c.out.chunks) == cap(c.out.chunks) }
 
 //go:norace
 func (c *SimConn) IsClosed() bool { return c.closed }
